@@ -45,6 +45,10 @@ pub fn scenarios(tier: Tier) -> Vec<Scenario> {
         // rolled-back writers (the two largest bodies)
         alpha.push(Action::Tx { ops: m[2].clone(), commit: false });
         alpha.push(Action::Tx { ops: m[3].clone(), commit: false });
+        if name.starts_with("inside") || name.starts_with("k2") {
+            // commit() called on a read-only transaction (it must fail and leave the other readers alone)
+            alpha.push(Action::RoCommit);
+        }
         if name.starts_with("inside") {
             // a reader that begins while a write transaction is open (before its commit / its rollback)
             for b in m.iter().take(nmenu) {
@@ -61,6 +65,38 @@ pub fn scenarios(tier: Tier) -> Vec<Scenario> {
         sc.poison_unmap = true;
         sc.max_readers = k;
         out.push(sc);
+    }
+    out
+}
+
+/// Long staged histories (thresholds between 8 and 70 generations of pending pages): reader 1 is
+/// opened first, reader 2 `gap` commits later; reader 1 is closed after `hold` commits, reader 2 stays
+/// for `after` more; every open reader is re-dumped after every action.
+pub fn long_histories(tier: Tier) -> Vec<(String, Cfg, Vec<Action>)> {
+    let m = menu();
+    let mut out = vec![];
+    let holds: Vec<usize> = if tier == Tier::Quick { vec![8, 31, 33, 40, 66] } else { vec![8, 15, 16, 17, 31, 32, 33, 34, 40, 63, 64, 65, 66, 70, 130, 260] };
+    for &hold in &holds {
+        for gap in [2usize, 3] {
+            let mut acts = setup();
+            acts.push(Action::OpenReader);
+            for i in 0..hold {
+                if i == gap {
+                    acts.push(Action::OpenReader);
+                }
+                acts.push(Action::Tx { ops: m[i % 4].clone(), commit: true });
+                if i % 7 == 6 {
+                    acts.push(Action::Tx { ops: m[2].clone(), commit: false });
+                }
+            }
+            acts.push(Action::CloseReader(0));
+            for i in 0..6 {
+                acts.push(Action::Tx { ops: m[(i + 1) % 4].clone(), commit: true });
+            }
+            acts.push(Action::CloseReader(0));
+            acts.push(Action::Tx { ops: m[0].clone(), commit: true });
+            out.push((format!("two-readers-gap{}-hold{}", gap, hold), Cfg { num_pages: 8000, ..Cfg::default() }, acts));
+        }
     }
     out
 }
